@@ -22,6 +22,10 @@ CHECKS = {
          "fault placements in registry worlds are sampled (seeded), exhaustive for the URL profiles; decode/parse errors carry no referrer by construction", "TLC fault enumeration replayed + TLA+ trace validation of faulted registry builds"),
  "C04": (MC, "design level: TLC explores every interleaving of load completions of the small-step builder model (MC_Steps) and checks that the terminal graph, including error referrers, equals the in-order run, plus deadlock freedom and termination under fairness; implementation level: every TLC-generated schedule is replayed through gated loader futures against the real builder (graph compared with the model), and registry worlds are run under reverse / in-order / random schedules and repeated with fresh hasher state; a trace spec checks the terminal observation (serialised graph, error ranges, package table, lockfile) is unique per world", "4.3, 7 C04",
          "registry-world schedules are sampled; URL-world schedules are exhaustive for the bounded instance", "TLC schedule enumeration replayed through gated loads + trace validation of observation uniqueness"),
+ "C13": (MC, "seeded one-package registry worlds exercising every serialised field are built 21 ways (no embedded module information / moduleGraph2 / moduleGraph1 x cache contents x graph kind) and TLC checks on the projected graphs that all variants coincide; the serde round trip of every ModuleInfo (generated and corpus sources) is an identity check carried by the harness", "4.3, 7 C13, 8",
+         "the round-trip clause is encode/decode fidelity, evaluated concretely, not by TLC", "TLA+ trace validation of build variants (T_Info) + concrete round-trip clause"),
+ "C20": ("exploration", "the complete decision table of Encoding.tla (scheme x content-type charset x byte class x media type x root/dependency, 384 rows) is enumerated by TLC and every row is loaded through a real one-module build with seeded payloads; stored text is compared with an independent std-library decoding, original bytes must be None or byte-identical and as the table predicts, size must equal the stored text's byte length", "4.8, 7 C20",
+         "the decoders themselves (encoding_rs) are trusted; this is an exhaustive exploration of a decision table, not a transition system", "TLC-enumerated decision table replayed into ModuleGraph::build"),
  "C05": (MC, "every loader call, lockfile read and write of seeded registry + remote worlds (lockfile absent / matching / wrong, tampered bytes and manifests, stale caches, redirects, cache-only probes) is a trace event; TLC checks per call that the known checksum is presented, and at the end that rejected content is not admitted, the retry discipline, rejected checksummed redirects and exact, non-overwriting lockfile writes", "4.6, 7 C05",
          "SHA-256 values are computed by the harness and compared as tokens; F9 is a known finding", "TLA+ trace validation of loader/locker events (T_Jsr)"),
  "C06": (MC, "function level: TLC enumerates the whole bounded domain of resolve_version (registries x requirements x already-selected x cached x cutoff), proves tiers-as-coded == property statement at design level and every combination is replayed into the real function; graph level: every on_resolve event of registry-world builds is validated in order against the statement with the selections made so far", "4.6, 7 C06",
